@@ -1,0 +1,80 @@
+//go:build verif
+
+package keylock
+
+// Read-only accessors for the runtime monitors in /verif (build tag "verif").
+// They take the table mutex the package itself uses.
+
+// VerifEntries reports the number of per-key entries kept.
+func (d *KeyLocker) VerifEntries() int {
+	d.locker.Lock()
+	defer d.locker.Unlock()
+	return len(d.lockMap)
+}
+
+// VerifKeyCounts reports the reader/writer counts (holders plus waiters) of key.
+func (d *KeyLocker) VerifKeyCounts(key interface{}) (readers, writers int, present bool) {
+	d.locker.Lock()
+	defer d.locker.Unlock()
+	var w, ok = d.lockMap[key]
+	if !ok {
+		return 0, 0, false
+	}
+	return w.readCount, w.writeCount, true
+}
+
+// VerifEntries reports the number of per-key entries kept (summed over shards).
+func (w *KeyLockerGrp) VerifEntries() int {
+	var n int
+	for _, l := range w.ls {
+		n += l.VerifEntries()
+	}
+	return n
+}
+
+// VerifKeyCounts reports the reader/writer counts (holders plus waiters) of key.
+func (w *KeyLockerGrp) VerifKeyCounts(key interface{}) (readers, writers int, present bool) {
+	return w.calculateKey(key).VerifKeyCounts(key)
+}
+
+// VerifShard reports the shard index of key.
+func (w *KeyLockerGrp) VerifShard(key interface{}) int {
+	return w.calKeyFn(key)
+}
+
+// VerifEntries reports the number of per-key entries kept.
+func (d *TKeyLocker[T]) VerifEntries() int {
+	d.locker.Lock()
+	defer d.locker.Unlock()
+	return len(d.lockMap)
+}
+
+// VerifKeyCounts reports the reader/writer counts (holders plus waiters) of key.
+func (d *TKeyLocker[T]) VerifKeyCounts(key T) (readers, writers int, present bool) {
+	d.locker.Lock()
+	defer d.locker.Unlock()
+	var w, ok = d.lockMap[key]
+	if !ok {
+		return 0, 0, false
+	}
+	return w.readCount, w.writeCount, true
+}
+
+// VerifEntries reports the number of per-key entries kept (summed over shards).
+func (w *TKeyLockerGrp[T]) VerifEntries() int {
+	var n int
+	for _, l := range w.ls {
+		n += l.VerifEntries()
+	}
+	return n
+}
+
+// VerifKeyCounts reports the reader/writer counts (holders plus waiters) of key.
+func (w *TKeyLockerGrp[T]) VerifKeyCounts(key T) (readers, writers int, present bool) {
+	return w.calculateKey(key).VerifKeyCounts(key)
+}
+
+// VerifShard reports the shard index of key.
+func (w *TKeyLockerGrp[T]) VerifShard(key T) int {
+	return w.calKeyFn(key)
+}
